@@ -149,6 +149,7 @@ theorem dispatch_safe (rt : Route) (c : Ctx) : Safe (Licensed rt c) (dispatch rt
     | open_ => exact fr Frame.probe c
     | lockmw => exact lockMW_safe _ (fr Frame.probe) c
     | confirmmw => exact confirmMW_safe _ (fr Frame.probe) c
+    | rootmw => exact confirmMW_safe _ (lockMW_safe _ (fr Frame.probe)) c
     | notFound => exact Frame.safe (Frame.status _) _ _
 
 end AuthbossModel.M
